@@ -686,7 +686,7 @@ where
                 ThreadOp::Drop((*site, *arg), obj)
             }
             ConcOp::Act(Action::Noop) => ThreadOp::Noop,
-            ConcOp::Act(Action::Abort { .. }) => unreachable!(),
+            ConcOp::Act(Action::Abort { .. }) | ConcOp::Act(Action::Extend(_)) => unreachable!(),
             ConcOp::Start(c) => ThreadOp::Start(c.clone(), false),
             ConcOp::View => ThreadOp::View,
         }));
